@@ -58,7 +58,7 @@ def commit_rules(ctx: Ctx, top: Func, rule: str) -> None:
         desc = "the committed mapping is the evaluation's complete path map (the value assigned to requested_paths)"
         if req is None or arg is None:
             rep.unknown(rule, top.qname, "cannot find the requested_paths assignment / the sync_paths argument", top.loc(sc))
-        elif isinstance(req, ast.Name) and isinstance(arg, ast.Name) and req.id == arg.id and set(fl.defs_of_use(req)) == set(fl.defs_of_use(arg)):
+        elif isinstance(req, ast.Name) and isinstance(arg, ast.Name) and set(fl.root_defs(req)) == set(fl.root_defs(arg)):
             sl = ctx.slicer(follow_calls=False).slice(top, arg)
             asp = sl.find(lambda f_, n_: isinstance(n_, ast.Call) and (prog.dotted(f_, n_.func) or "").endswith("all_store_paths"))
             if asp is None:
